@@ -138,7 +138,27 @@ func FieldAddrOf(v ssa.Value) (ssa.Value, *types.Var, bool) {
 		return nil, nil, false
 	}
 	st := Deref(fa.X.Type()).Underlying().(*types.Struct)
-	return fa.X, st.Field(fa.Field), true
+	return OuterBase(fa.X), st.Field(fa.Field), true
+}
+
+// OuterBase: a field promoted from an embedded struct is a field of the outer struct: &(&x.embedded).f is
+// reported as field f of x.
+func OuterBase(base ssa.Value) ssa.Value {
+	for i := 0; i < 4; i++ {
+		in, ok := base.(*ssa.FieldAddr)
+		if !ok {
+			return base
+		}
+		st, ok := Deref(in.X.Type()).Underlying().(*types.Struct)
+		if !ok || !st.Field(in.Field).Embedded() {
+			return base
+		}
+		if _, isStruct := st.Field(in.Field).Type().Underlying().(*types.Struct); !isStruct {
+			return base
+		}
+		base = in.X
+	}
+	return base
 }
 
 // FieldLoad: if v is *(&base.f) (or base.f on a struct value) returns (base, f).
